@@ -877,10 +877,16 @@ func c17ForeignText(c *Ctx) {
 	}
 	sort.Strings(names)
 	ids := map[string]int64{"EUI64": 8, "DevAddr": 4, "NetID": 3, "AES128Key": 16}
+	// the identifier types: one recognised way of writing the codecs (R6.id-codecs), backed by the exact rules on
+	// symbolic texts and byte slices (the same ones C11 runs)
+	r.Rule("R6.id-codecs", "EUI64/DevAddr/NetID/AES128Key: hex.EncodeToString / hex.DecodeString after trimming one 0x; decoded length == array length before copy; Scan needs []byte (checked) of exact length; Value returns a slice of a copy")
+	c11TextE1(c, "R6.id-text")
+	c11SQLE1(c, "R6.id-sql")
+	r.Advisory("R6.id-codecs", "R6.id-text", "R6.id-sql")
 	for _, n := range names {
 		r.Saw("root-package types with a text form used in backend payloads", n)
 		if k, ok := ids[n]; ok {
-			codecRules(c, rule, n, k)
+			codecRules(c, "R6.id-codecs", n, k)
 			continue
 		}
 		lt := "lorawan." + n
